@@ -59,3 +59,65 @@ package filterstorage
 //@   requires s != nil && s.ruleListsMu != nil
 //@   modifies s.ruleLists
 //@   ensures s.ruleLists == rls
+
+// The index is loaded by the same refresh machinery (a failure is an error
+// here and nothing below runs); services and safe search keep their own state.
+//@ func (*Default).loadIndex
+//@   modifies replaceCalls, replaces, cleanups, sbLen, copyFailed, lastRefreshText
+//@   ensures err == nil ==> resp != nil
+//@   ensures err != nil ==> resp == nil
+//@ func (*Default).refreshServices
+//@   modifies heap
+//@   preserves Default.*, allmaps(ruleLists), rulelist.Refreshable.*, rulelist.filter.*
+//@ func (*Default).refreshSafeSearch
+//@   modifies heap
+//@   preserves Default.*, allmaps(ruleLists), rulelist.Refreshable.*, rulelist.filter.*
+
+//@ import agdhttp github.com/AdguardTeam/AdGuardDNS/internal/agdhttp
+//@ fun idOK(key string) bool
+//@ fun urlOK(u string) bool
+//@ func filter.NewID
+//@   modifies nothing
+//@   ensures (err == nil) == idOK(s)
+//@ func agdhttp.ParseHTTPURL
+//@   modifies nothing
+//@   ensures (err == nil) == urlOK(s) && (err == nil ==> u != nil)
+// entryOK: the index entry is usable - present, with a download URL that
+// parses and a valid filter key.
+//@ pred entryOK(f *indexRespFilter) = f != nil && f.DownloadURL != "" && idOK(f.Key) && urlOK(f.DownloadURL)
+// appliedIn: one of the first n results carries this key; fromOK: one of the
+// index entries up to position n is usable and carries this key.
+//@ fpred fromOK(r *indexResp, n int, key string) = exists j int :: 0 <= j && j <= n && j < len(r.Filters) && entryOK(r.Filters[j]) && r.Filters[j].Key == key
+
+//@ func (*indexRespFilter).validate
+//@   property C13
+//@   nilrecv
+//@   modifies nothing
+//@   ensures (err == nil) == (f != nil && f.DownloadURL != "" && idOK(f.Key))
+
+// idxSkipped counts the index entries that were reported and skipped.
+//@ ghost idxSkipped int
+//@ func (*indexResp).toInternal
+//@   property C13
+//@   requires r != nil
+//@   modifies idxSkipped
+//@   atcall Collect assert only-unusable-entries-are-skipped: !entryOK(rf)
+//@   atcall Collect set idxSkipped = idxSkipped + 1
+//@   ensures every-entry-is-applied-or-reported: len(fls) + idxSkipped - old(idxSkipped) == len(r.Filters)
+//@   ensures len(fls) <= len(r.Filters) && (forall k int :: 0 <= k && k < len(fls) ==> fls[k] != nil && fresh(fls[k]))
+//@   ensures applied-entries-are-usable-ones: forall k int :: 0 <= k && k < len(fls) ==> fromOK(r, len(r.Filters) - 1, fls[k].id)
+//@   loop 1 invariant -1 <= #i && #i < len(r.Filters) && len(fls) + idxSkipped - old(idxSkipped) == #i + 1 && idxSkipped >= old(idxSkipped) && fresh(fls) && (forall k int :: 0 <= k && k < len(fls) ==> fls[k] != nil && fresh(fls[k]))
+//@   loop 1 invariant forall k int :: 0 <= k && k < len(fls) ==> fromOK(r, #i, fls[k].id)
+
+//@ func (*Default).refresh
+//@   property C13
+//@   requires ST(s) && s.ruleListIdxRefr != nil && (s.ruleLists == nil || allocated(s.ruleLists))
+//@   modifies heap, replaceCalls, replaces, cleanups, sbLen, copyFailed, lastRefreshText, storageText, engineText, cacheClears, rlRefreshOK, idxSkipped
+//@   ensures any-failure-keeps-every-installed-list: err != nil ==> s.ruleLists == old(s.ruleLists)
+//@   ensures installed-lists-are-new-or-previous: err == nil ==> (forall id filter.ID :: has(s.ruleLists, id) ==>
+//@             (s.ruleLists[id] != nil && fresh(s.ruleLists[id])) || (old(has(s.ruleLists, id)) && s.ruleLists[id] == old(s.ruleLists[id])))
+//@   loop 1 invariant -1 <= #i && #i < len(fls) && newRuleLists != nil && fresh(newRuleLists) && s.ruleLists == old(s.ruleLists)
+//@   loop 1 invariant forall k int :: 0 <= k && k < len(fls) ==> fls[k] != nil
+//@   loop 1 invariant forall id filter.ID :: has(newRuleLists, id) ==>
+//@             (newRuleLists[id] != nil && fresh(newRuleLists[id])) || (old(has(s.ruleLists, id)) && newRuleLists[id] == old(s.ruleLists[id]))
+//@   loop 1 invariant forall id filter.ID :: has(s.ruleLists, id) == old(has(s.ruleLists, id)) && s.ruleLists[id] == old(s.ruleLists[id])
